@@ -324,11 +324,16 @@ def gen_malformed(r):
 
 def human(n):
     """Bytes Display as documented: binary units, two decimals, trailing zeros trimmed"""
+    # the unit is judged on the value as a double (C16); the two decimals are the exact hundredths of the integer, rounded
+    # half to even (C16 after fix 29789b9: computed from the integer, so exact above 2^53 too)
     v, i = float(n), 0
     while v >= 1024.0:
         v /= 1024.0; i += 1
-    suffix = ("byte" if v == 1.0 else "bytes") if i == 0 else ["KiB", "MiB", "GiB", "TiB", "PiB", "EiB"][i - 1]
-    return ("%.2f" % v).rstrip("0").rstrip(".") + " " + suffix
+    suffix = ("byte" if n == 1 else "bytes") if i == 0 else ["KiB", "MiB", "GiB", "TiB", "PiB", "EiB"][i - 1]
+    unit = 1024 ** i
+    q, r = divmod(100 * n, unit)
+    h = q + (1 if 2 * r > unit or (2 * r == unit and q % 2) else 0)
+    return ("%d.%02d" % (h // 100, h % 100)).rstrip("0").rstrip(".") + " " + suffix
 
 
 def civil(days):
